@@ -2,6 +2,7 @@ package gosym
 
 import (
 	"fmt"
+	"os"
 	"go/types"
 	"sort"
 	"strings"
@@ -22,7 +23,7 @@ func (p *pathEnd) Error() string { return p.kind + ": " + p.msg }
 
 // goPanic is a Go-level panic travelling through the host stack.
 type goPanic struct {
-	val     Value // IfaceV
+	val     Value  // IfaceV
 	runtime string // non-empty for runtime errors (index out of range ...)
 	where   string
 }
@@ -57,19 +58,19 @@ func (ex *Exec) where() string {
 // ---------- configuration & results ----------
 
 type Config struct {
-	MaxIter     int           // per-frame visits of one block before an unwinding failure
-	MaxDepth    int           // call depth
-	MaxPaths    int           // per-harness path cap (0 = none)
-	QueryMs     int           // per-query solver timeout
-	Stubs       map[string]string // function name (or prefix ending in *) -> "zero" | "noop" | "havoc"
-	PanicIsViolation bool     // an uncaught Go panic on a feasible path is a violation
-	Inputs      map[string]uint64 // replay mode: fixed values for named inputs
-	NoMerge     bool
-	Fixed       map[string]uint64 // debugging: inputs pinned to constants while the rest stay symbolic
-	NoFallback  bool
-	FallbackMs  int
-	Deadline    time.Time
-	Trace       bool
+	MaxIter          int               // per-frame visits of one block before an unwinding failure
+	MaxDepth         int               // call depth
+	MaxPaths         int               // per-harness path cap (0 = none)
+	QueryMs          int               // per-query solver timeout
+	Stubs            map[string]string // function name (or prefix ending in *) -> "zero" | "noop" | "havoc"
+	PanicIsViolation bool              // an uncaught Go panic on a feasible path is a violation
+	Inputs           map[string]uint64 // replay mode: fixed values for named inputs
+	NoMerge          bool
+	Fixed            map[string]uint64 // debugging: inputs pinned to constants while the rest stay symbolic
+	NoFallback       bool
+	FallbackMs       int
+	Deadline         time.Time
+	Trace            bool
 }
 
 type Obligation struct {
@@ -182,18 +183,18 @@ func (s *Stats) Merge(o *Stats) {
 // ---------- executor ----------
 
 type frame struct {
-	fn        *ssa.Function
-	info      *fnInfo
-	vals      []Value
-	env       []Value
-	cur       ssa.Instruction
-	defers    []deferred
-	visits    []int32
-	panicking *goPanic
-	region    int
+	fn          *ssa.Function
+	info        *fnInfo
+	vals        []Value
+	env         []Value
+	cur         ssa.Instruction
+	defers      []deferred
+	visits      []int32
+	panicking   *goPanic
+	region      int
 	regionHeads []*ssa.BasicBlock
-	recovered bool
-	results   Value
+	recovered   bool
+	results     Value
 }
 
 type deferred struct {
@@ -233,51 +234,53 @@ type Exec struct {
 	world  *World
 
 	// per path
-	trail    []uint64
-	pos      int
-	decided  []uint64
-	pending  [][]uint64 // alternatives discovered on this path
-	pc       []*smt.Term
-	stack    []*frame
-	inputs   []inputVar
-	inputSet map[string]*smt.Term
-	notes    []string
-	harness  string
-	replaced map[string]*FuncV
-	nowSeq   int
-	lastNow  *smt.Term
-	panics   []*frame // frames currently running defers because of a panic
-	ghost    map[string]interface{}
-	goq      []pendingGo
-	inGo     bool
-	guards   []guardLevel
-	mlog     []mlogRec
+	trail       []uint64
+	pos         int
+	decided     []uint64
+	pending     [][]uint64 // alternatives discovered on this path
+	pc          []*smt.Term
+	stack       []*frame
+	inputs      []inputVar
+	inputSet    map[string]*smt.Term
+	notes       []string
+	harness     string
+	replaced    map[string]*FuncV
+	nowSeq      int
+	lastNow     *smt.Term
+	panics      []*frame // frames currently running defers because of a panic
+	ghost       map[string]interface{}
+	goq         []pendingGo
+	inGo        bool
+	guards      []guardLevel
+	mlog        []mlogRec
 	pendingEval *smt.Evaluator
-	pcLits   map[*smt.Term]int
-	ufApps   []ufApp
-	traces   []traceRec
-	eval     *smt.Evaluator // model satisfying the current path condition (nil: unknown)
+	pcLits      map[*smt.Term]int
+	ufApps      []ufApp
+	traces      []traceRec
+	eval        *smt.Evaluator // model satisfying the current path condition (nil: unknown)
 
 	// per worker
-	fnInfos   map[*ssa.Function]*fnInfo
-	globals   map[*ssa.Global]*Cell
-	inited    map[*ssa.Package]bool
-	initMode  int
+	fnInfos    map[*ssa.Function]*fnInfo
+	globals    map[*ssa.Global]*Cell
+	inited     map[*ssa.Package]bool
+	initMode   int
 	initTarget *ssa.Package
-	undo      []undoRec
-	cellSeq   int
-	objSeq    int
-	byteTab   [256]*smt.Term
-	funcVals  map[*ssa.Function]*FuncV
-	typeCells map[string]*Cell
-	uniq      map[string]Value
-	intr      map[string]intrinsic
-	nSamples  int
-	pdoms     map[*ssa.Function]*pdomInfo
-	regionOK  map[*ssa.BasicBlock]bool
-	joinOf    map[*ssa.BasicBlock]*ssa.BasicBlock
+	undo       []undoRec
+	cellSeq    int
+	objSeq     int
+	byteTab    [256]*smt.Term
+	funcVals   map[*ssa.Function]*FuncV
+	typeCells  map[string]*Cell
+	uniq       map[string]Value
+	intr       map[string]intrinsic
+	nSamples   int
+	lastHow    string
+	noLits     bool
+	pdoms      map[*ssa.Function]*pdomInfo
+	regionOK   map[*ssa.BasicBlock]bool
+	joinOf     map[*ssa.BasicBlock]*ssa.BasicBlock
 	mergeFails map[*ssa.BasicBlock]int
-	mergeOKs  map[*ssa.BasicBlock]int
+	mergeOKs   map[*ssa.BasicBlock]int
 }
 
 func NewExec(w *World, cfg *Config) (*Exec, error) {
@@ -502,6 +505,15 @@ func (ex *Exec) notePC(t *smt.Term, at int) {
 	ex.pcLits[t] = at
 }
 
+var debugLits = os.Getenv("VERIF_CHECKLITS") != ""
+
+func litKey(t *smt.Term) *smt.Term {
+	if t.Op == smt.OpNot {
+		return t.Args[0]
+	}
+	return t
+}
+
 // pcKnows reports whether c is syntactically asserted (1), refuted (-1) or unknown (0).
 func (ex *Exec) pcKnows(c *smt.Term) int {
 	neg := false
@@ -566,17 +578,26 @@ func (ex *Exec) feasible(t *smt.Term) smt.Result {
 	if t.IsFalse() {
 		return smt.Unsat
 	}
-	switch ex.pcKnows(t) {
-	case 1:
-		return smt.Sat
-	case -1:
+	if k := ex.pcKnows(t); k != 0 && !ex.noLits {
+		ex.lastHow = "pc-literal"
+		if debugLits {
+			r, _ := ex.solver.Check(t)
+			if (k == 1) != (r == smt.Sat) {
+				fmt.Fprintf(os.Stderr, "DEBUG pcLits mismatch: know=%d solver=%v term=%d op=%d pclen=%d entry=%d guards=%d where=%s\n", k, r, t.ID, t.Op, len(ex.pc), ex.pcLits[litKey(t)], len(ex.guards), ex.where())
+			}
+		}
+		if k == 1 {
+			return smt.Sat
+		}
 		return smt.Unsat
 	}
+	ex.lastHow = "z3"
 	r, err := ex.solver.Check(t)
 	if err != nil {
 		panic(&pathEnd{kind: "unknown", msg: err.Error()})
 	}
 	if r == smt.Unknown {
+		ex.lastHow = "fallback"
 		r, _ = ex.fallback(t, nil)
 	}
 	return r
@@ -832,7 +853,11 @@ func (ex *Exec) Assert(name string, cond *smt.Term) {
 		o.Discharged++
 		return
 	}
+	// obligations are always decided by the solver: inside a merge arm the path condition plus
+	// guard may be unsatisfiable, and the syntactic literal cache must not be trusted there
+	ex.noLits = true
 	r := ex.feasible(ex.ctx.Not(cond))
+	ex.noLits = false
 	switch r {
 	case smt.Unsat:
 		o.Discharged++
@@ -884,7 +909,7 @@ func (ex *Exec) recordViolation(kind, name, site, msg string) {
 			v.Notes = append(v.Notes, fmt.Sprintf("trace %s = %d", tr.name, vals[nBase+i]))
 		}
 	} else {
-		v.Msg += fmt.Sprintf(" (model unavailable: %v %v)", res, err)
+		v.Msg += fmt.Sprintf(" (model unavailable: %v %v; verdict came from %s)", res, err, ex.lastHow)
 	}
 	if ex.cfg.Inputs != nil {
 		for k, val := range ex.cfg.Inputs {
